@@ -203,6 +203,14 @@ def fmtFErr : FErr → String
   | .raw e => fmtErr e
   | .unmodelled => "!UNMODELLED"
 
+def parseFErr (t : String) : FErr :=
+  if t = "!UpnpXmlContentError" then .xmlContent
+  else if t = "!UpnpXmlParseError" then .xmlParse
+  else if t = "!UpnpResponseError" then .response
+  else if t = "!UpnpError" then .upnpError
+  else if t = "!RAW:KeyError" then .keyError
+  else .raw (parseErr t)
+
 def sOf (s : Str) : String := String.ofList s
 def oOf (o : Option Str) : String := match o with | some s => sOf s | none => "~"
 
@@ -268,10 +276,9 @@ def finish (st : St) : String × Bool × Bool × List String :=
             else (false, [s!"corr: res={st.res} {firstDiff obsRows rows}"])
         | .error e => if fmtFErr e = st.res then (true, []) else (false, [s!"corr: impl res={st.res} model={fmtFErr e}"])
       -- judge: the implementation's dump against the specification
-      let obs : Observed FV :=
-        if st.res = "ok" then .created (st.rows.toList)
-        else if st.res = "!UpnpXmlContentError" || st.res = "!UpnpXmlParseError" then .libraryError
-        else .otherError
+      let implRes : Except FErr (List (DevRow FV)) :=
+        if st.res = "ok" then .ok st.rows.toList else .error (parseFErr st.res)
+      let obs : Observed FV := observedOf implRes
       let jok := judge fo tb normRow st.nonStrict st.base d obs
       let jnote : List String :=
         if jok then [] else
